@@ -40,14 +40,23 @@ def gen_cases(rng, tier):
                 axes.append(col)
             atoms.append(axes)
         cases.append({'m': m, 'rot': rng.random() < 0.4, 'rseed': rng.randrange(10**6), 'atoms': atoms,
-                      'dim': rng.randint(1, 3), 'dt': rng.choice([1e-15, 2e-15, 0.5e-15])})
+                      'dim': rng.randint(1, 3), 'dt': rng.choice([1e-15, 2e-15, 0.5e-15]),
+                      # call history before the observed calls: 0 = fresh object; k > 0 = the object first holds frames [0,k), is analysed, and is then
+                      # extended by the remaining frames (a continuation run)
+                      'pre': rng.randint(1, T - 1) if (T >= 3 and rng.random() < 0.3) else 0})
     return cases
 
 
 def impl(case):
     rot = synth.rotation(random.Random(case['rseed'])) if case['rot'] else None
     c = np.array(case['atoms'], dtype=float).transpose(2, 0, 1) / DEN
-    traj = synth.make_traj(case['m'], ['Li'] * c.shape[1], c, time_step=case['dt'], rot=rot)
+    k = case.get('pre', 0)
+    if k:
+        traj = synth.make_traj(case['m'], ['Li'] * c.shape[1], c[:k], time_step=case['dt'], rot=rot)
+        traj.mean_squared_displacement(), traj.distances_from_base_position(), traj.metrics().tracer_diffusivity(dimensions=case['dim'])
+        traj.extend(synth.make_traj(case['m'], ['Li'] * c.shape[1], c[k:], time_step=case['dt'], rot=rot))
+    else:
+        traj = synth.make_traj(case['m'], ['Li'] * c.shape[1], c, time_step=case['dt'], rot=rot)
     msd = traj.mean_squared_displacement()
     dist = traj.distances_from_base_position()
     td = traj.metrics().tracer_diffusivity(dimensions=case['dim'])
@@ -131,7 +140,7 @@ def nontrivial(case, out):
 
 
 def classify(case, out):
-    return ['rotated' if case['rot'] else 'aligned', f'T={len(case["atoms"][0][0])}']
+    return ['rotated' if case['rot'] else 'aligned', f'T={len(case["atoms"][0][0])}', 'analysed-then-extended' if case.get('pre') else 'fresh-object']
 
 
 def sample(case, out):
